@@ -53,7 +53,17 @@ ByteCases(s) ==
   {[type |-> s.type, op |-> "FlipByte", k |-> o, v |-> 1] : o \in os} \cup
   {[type |-> s.type, op |-> "SetBytes", k |-> o, v |-> LenPatterns[j]] : o \in os, j \in 1..Len(LenPatterns)} \cup
   {[type |-> s.type, op |-> "InsBytes", k |-> o, v |-> LenPatterns[j]] : o \in os, j \in 1..Len(LenPatterns)}
-CasesOf(s) == IF s.binary THEN CharCases(s) \cup ByteCases(s) ELSE FieldCases(s) \cup DimCases(s) \cup CharCases(s)
+\* key blocks as sequences of well-formed packets: every sequence over the packet kinds up to a length (primary key,
+\* subkey, user ID, certification, subkey binding, key and subkey packets of an unknown algorithm, marker) - the parser
+\* keeps pending objects between packets, so the order in which packets end a pending object matters
+PktKinds == <<"pub", "sub", "uid", "sig", "subsig", "subx", "pubx", "marker">>
+RECURSIVE PktSeqs(_)
+PktSeqs(n) == IF n = 0 THEN {<<>>} ELSE LET r == PktSeqs(n - 1) IN
+                 r \cup {Append(q, PktKinds[j]) : q \in {x \in r : Len(x) = n - 1}, j \in 1..Len(PktKinds)}
+SeqCases(s) == IF s.type = "pgp_keyblock"
+               THEN {[type |-> s.type, op |-> "PktSeq", k |-> 0, v |-> q] : q \in PktSeqs(IF Stride > 1 THEN 4 ELSE 5) \ {<<>>}}
+               ELSE {}
+CasesOf(s) == IF s.binary THEN CharCases(s) \cup ByteCases(s) \cup SeqCases(s) ELSE FieldCases(s) \cup DimCases(s) \cup CharCases(s)
 
 VARIABLES i, done
 Init == i = 1 /\ done = FALSE
